@@ -20,11 +20,16 @@ MARK = "# static analysis: ignore"
 EXPR_FRAGS = [('"%s x" % a', "use_fstrings"), ('"%d %s" % (a, b)', "use_fstrings"), ('"{a} x"', "missing_f"), ('"%s" % (a,)', "use_fstrings"), ('"x %s y %s" % (b, a)', "use_fstrings"),
               ("g3(a, b, 3)", "too_many_positional_args"), ("g3po(a, b, 3)", "too_many_positional_args"),
               # equal arguments, equal literals: a fix that maps arguments to parameter names must keep them apart
-              ("g3(a, a, 3)", "too_many_positional_args"), ("g3(1, 1, 1)", "too_many_positional_args"), ("g3(b, a, a)", "too_many_positional_args")]
+              ("g3(a, a, 3)", "too_many_positional_args"), ("g3(1, 1, 1)", "too_many_positional_args"), ("g3(b, a, a)", "too_many_positional_args"),
+              # text after the last specifier incl. a newline escape; escaped braces next to a real field; a tuple-valued single argument
+              ('"%s!\\n" % a', "use_fstrings"), ('"<%s>\\n" % (b,)', "use_fstrings"), ('"{a} {{b}}"', "missing_f"), ('"%s" % (t,)', "use_fstrings")]
 SHAPES = ["return {e}", "v = {{**d, 'k': {e}}}\n    return v", "def inner(*, p={e}, q):\n        return (p, q)\n    return inner(q=1)", "return h({e}, *t, **d)",
           "return [{e} for _ in t]", "w = lambda: {e}\n    return w()", "return h(\n        {e},\n        b,\n    )", "v = {e}\n    return v", "return ({e}, {e})",
           "if a:\n        return {e}\n    return None", "try:\n        return {e}\n    finally:\n        pass", "return {{'k': {e}, **d}}", "x = 1\n    return {e}",
-          "@dec({e})\n    def inner():\n        return 1\n    return inner()", "class K:\n        attr = {e}\n    return K.attr", "assert a is not None, {e}\n    return 1", "return h(k={e})"]
+          "@dec({e})\n    def inner():\n        return 1\n    return inner()", "class K:\n        attr = {e}\n    return K.attr", "assert a is not None, {e}\n    return 1", "return h(k={e})",
+          # several statements on one physical line, a backslash continuation, a trailing comment, a case body
+          "x = 1; v = {e}; return (x, v)", "v = 1, \\\n        {e}\n    return v", "v = {e}  # note\n    return v", "match a:\n        case 1:\n            return {e}\n    return None",
+          "v = (\n        {e}\n    )\n    return v"]
 STMT_PROGS = [
     ("def f(a, b, d, t):\n    unused = a\n    return b\n", "unused_variable"),
     ("def f(a, b, d, t):\n    x, y = a, b\n    return x\n", "unused_variable"),
@@ -40,6 +45,11 @@ STMT_PROGS = [
     ("def f(a, b, d, t):\n    if a:\n        unused = b\n    return a\n", "unused_variable"),
     ("def f(a, b, d, t):\n    for unused in t:\n        pass\n    return a\n", "unused_variable"),
     ("def f(a, b, d, t):\n    with open('/dev/null') as unused:\n        return a\n", "unused_variable"),
+    ("def f(a, b, d, t):\n    y = d.setdefault('q', 5)\n    return sorted(d)\n", "unused_variable"),
+    ("def f(a, b, d, t):\n    x = 1; y = 2\n    return x\n", "unused_variable"),
+    ("def f(a, b, d, t):\n    y = \'\'\'q\n    r\'\'\'\n    return b\n", "unused_variable"),
+    ("def f(a, b, d, t):\n    if a: y = 2\n    return b\n", "unused_variable"),
+    ("def f(a, b, d, t):\n\ty = 2\n\treturn b\n", "unused_variable"),
     ("def f(a, b, d, t):\n    return a  " + MARK + "[undefined_name]\n", "unused_ignore"),
     ("def f(a, b, d, t):\n    " + MARK + "[undefined_name]\n    return a\n", "unused_ignore"),
     ("def f(a, b, d, t):\n    return a  " + MARK + "\n", "unused_ignore"),
@@ -246,6 +256,10 @@ def _fix(res, tier, lo, hi):
 
 def _shape_of(src):
     body = src[len(PRE):] if src.startswith(PRE) else src
+    # properties of the fragment / statement itself come first: they name the root cause whatever the surrounding shape is
+    for key, name in (("@dec", "decorator"), ("\\n\" %", "text-before-newline-escape"), ("; ", "two-per-line"), ("y = \'\'\'", "multiline-string-value")):
+        if key in body:
+            return name
     for key, name in ((":=", "walrus"), ("if a:\n        unused", "sole-statement-of-block"), (" = z = ", "chained-assignment"), ("z = y = ", "chained-assignment"), ("@dec", "decorator"), ("g3po", "posonly-callee"), ("**d, 'k'", "dict-unpack-first"), ("'k': ", "dict-unpack-last"), ("def inner(*", "kwonly-default"), ("*t, **d", "star-call"), ("for _ in t", "comprehension"), ("lambda", "lambda"),
                       ("h(\n", "multiline-call"), ("@dec", "decorator"), ("g3po", "posonly-callee"), ("class K", "class-attr"), ("assert", "assert-msg"), ("finally", "try-finally"), ("if a:", "if"), ("({", "tuple-two"), ("; ", "two-per-line"), (MARK, "ignore-comment"), ("v0 = ", "two-fixes")):
         if key in body:
